@@ -183,7 +183,7 @@ class Walk:
                     continue
                 top = stv[-1]
                 if m in ("V", "6") and qn == "subsystem" and top == R.L(R.L_TASK_BODY[m]):
-                    b = th.bodies[-1] if th.bodies else None
+                    b = th.bodies[m][-1] if th.bodies[m] else None
                     if b is None:
                         continue
                     if b.state == "paused":
@@ -384,7 +384,7 @@ def prop_task(draw, w, th, models, wild=False):
         if m == "V" and draw(st.integers(0, 2)) == 0:
             v = "C"
         return (m + "T" + v, T.P("II", tid, typ), 0)
-    top = th.bodies[-1] if th.bodies else None
+    top = th.bodies[m][-1] if th.bodies[m] else None
     acts = ["x", "x", "p", "r", "e"]
     a = draw(st.sampled_from(acts))
     if a == "p" and getattr(w, "no_bare_pause", False):
@@ -417,7 +417,7 @@ def prop_task_wild(draw, w, th, models):
     proc = th.proc
     tasks = proc.tasks[m]
     cands = []
-    top = th.bodies[-1] if th.bodies else None
+    top = th.bodies[m][-1] if th.bodies[m] else None
     for t in tasks.values():
         for b in t.bodies.values():
             bid = b.id
